@@ -21,6 +21,13 @@ MODULE = 'BearVerif.Props.C18'
 PROP_FILE = LEAN / 'BearVerif/Props/C18.lean'
 
 
+_ALIASES: list = []
+
+
+class RecursiveAlias(Exception):
+    pass
+
+
 def hand_rewrite(h, mp: dict):
     """Replace every occurrence of a key of `mp` inside hint `h`, at every depth, once."""
     try:
@@ -37,7 +44,13 @@ def hand_rewrite(h, mp: dict):
     if hasattr(h, '__supertype__'):        # a NewType stands for its supertype
         return hand_rewrite(h.__supertype__, mp)
     if isinstance(h, T.TypeAliasType):     # a PEP 695 alias stands for its value
-        return hand_rewrite(h.__value__, mp)
+        if any(a is h for a in _ALIASES):  # a recursive alias has no finite hand-rewritten spelling
+            raise RecursiveAlias(repr(h))
+        _ALIASES.append(h)
+        try:
+            return hand_rewrite(h.__value__, mp)
+        finally:
+            _ALIASES.pop()
     origin, args = T.get_origin(h), T.get_args(h)
     if origin is None or not args:
         return h
@@ -107,7 +120,11 @@ def explore_c18(ck: Check, n: int, seed: int) -> Explore:
                             collections.abc.Mapping[str, tuple[leaf, int]], list[h] if rng.random() < 0.3 else list[leaf]])
         made += 1
         for oname, conf, mp in options:
-            hr = hand_rewrite(h, mp)
+            try:
+                hr = hand_rewrite(h, mp)
+            except RecursiveAlias:
+                sens['skipped:recursive-alias'] += 1
+                continue
             sensitive = repr(hr) != repr(h)
             if not sensitive and rng.random() < 0.8:
                 continue
